@@ -362,6 +362,12 @@ func (m *Machine) binop(op token.Token, a, b Value, t types.Type, yt types.Type)
 			return m.arith(op, x, y, w, signed)
 		case token.QUO, token.REM:
 			m.panicIf(tEq(y, mkU(0, y.W)), "integer divide by zero")
+			if !bvMode && y.C == nil && y.Lo != nil && y.Lo.Sign() == 0 {
+				// the divisor is known non-zero on this path: tighten its interval (keeps the quotient linear-friendly)
+				c := *y
+				c.Lo = big1
+				y = &c
+			}
 			return m.arith(op, x, y, w, signed)
 		case token.SHL, token.SHR:
 			return m.shift(op, x, y, w, signed, yt)
